@@ -384,7 +384,7 @@ def molecules(rng, tier):
     m.add_atom('C'), m.add_atom('C'), m.add_atom('O')
     m.add_bond(1, 2, 8), m.add_bond(2, 3, 1)
     out.append(('special-bond', 'C~CO (order 8)', m))
-    pool = corpus.sample(corpus.lipo(), 60 if tier == 'quick' else 600, rng.random(), 'c09')
+    pool = corpus.sample(corpus.lipo(), 40 if tier == 'quick' else 600, rng.random(), 'c09')
     for s in pool:
         try:
             m = smiles(s)
@@ -679,13 +679,15 @@ def component_runs(q, m, rng, mod):
     except Exception as e:
         return None, f'{type(e).__name__}: {e}'
     nums = list(m._atoms)
-    scopes = [set(c) for c in m.connected_components]
+    scopes = [set(nums)]
     if len(nums) > 1:
-        scopes.append(set(rng.sample(nums, max(1, len(nums) // 2))))
-    scopes.append(set(nums))
+        scopes.append(set(rng.sample(nums, max(1, len(nums) * 2 // 3))))
+    cc = m.connected_components
+    if len(cc) > 1:
+        scopes.extend(set(c) for c in cc[:2])
     runs = []
     for ci, comp in enumerate(comps):
-        for sc in scopes[:3] if len(comps) > 1 else scopes:
+        for sc in scopes:
             bits = [int(n in sc) for n in nums]
             fast, err = run_pyx(mod, qbufs[ci], mbuf, bits)
             slow = run_py(comp, clo, m, sc)
@@ -708,7 +710,7 @@ def corr_pairs(ck, rng, mod, lay):
     seen_mol, seen_q = set(), set()
     mismatches = []
     n_pairs = n_oracle = 0
-    per_mol = 6 if ck.tier == 'quick' else 14
+    per_mol = 5 if ck.tier == 'quick' else 14
     p_hit, p_empty = (.15, .015) if ck.tier == 'quick' else (1, .3)
     for kind, text, m in mols:
         h_none = any(a.implicit_hydrogens is None for a in m._atoms.values())
@@ -763,7 +765,7 @@ def corr_pairs(ck, rng, mod, lay):
                 ck.count('search pair with ring closures' if any(clo.get(e[0]) for e in comp) else 'search pair without ring closures')
     for qtext, text, q, m, what in mismatches[:10]:
         report_pair(ck, qtext, text, q, m, what)
-    ok, failing, log = coqcases.run_cases('c09_srch', 'PyBase', cases, extra=EXTRA, shard=40)
+    ok, failing, log = coqcases.run_cases('c09_srch', 'PyBase', cases, extra=EXTRA, shard=150)
     ck.oblige('correspondence: whole buffers of real molecules / SMARTS == enc_mol / enc_query; transpiled get_mapping == mask_search and '
               '_get_mapping == ref_search as SEQUENCES of mappings (every component / scope call)', ok and not failing, 'correspondence',
               log or str([meta[i] for i in failing[:5]]))
